@@ -6,6 +6,7 @@ VARIABLES stage, seed, toks, kind
 vars == <<stage, seed, toks, kind>>
 
 SeedStyle == [gaps |-> "sp", seps |-> "all", seed |-> 0]
+XStyle == [gaps |-> "xc", seps |-> "all", seed |-> 0]
 SeedTypes == { [k |-> "struct", name |-> "Sa"], Opt(Arr(U(8))), Dyn([k |-> "enum", name |-> "Ea"]) }
 Seeds == { Decls(t, pv, iv, tv, 0) : t \in SeedTypes, pv \in {1, 4}, iv \in {2, 3}, tv \in {1, 2} }
          \cup { Decls(U(8), 5, 4, 3, 1) }
@@ -33,6 +34,9 @@ MutateStep ==
        \/ toks' = ReplaceAt(T0, 3, Q("2")) /\ kind' = "bad-version"
        \/ toks' = ReplaceAt(T0, 3, W("3")) /\ kind' = "bad-version"
        \/ toks' = T0 /\ kind' = "unmutated"
+       \/ toks' = T0 /\ kind' = "unmutated-xc"
+       \/ \E k \in 0..(Len(T0) - 1) : toks' = TruncateToks(T0, k) /\ kind' = "truncate-xc"
 Spec == Init /\ [][PickSeed \/ MutateStep]_vars
-Emit == stage = 2 => PrintT("OUT " \o ToJson([kind |-> kind, text |-> Render(toks, SeedStyle) \o "\n"]))
+StyleOf(kd) == IF kd \in {"unmutated-xc", "truncate-xc"} THEN XStyle ELSE SeedStyle
+Emit == stage = 2 => PrintT("OUT " \o ToJson([kind |-> kind, text |-> Render(toks, StyleOf(kind)) \o "\n"]))
 =============================================================================
